@@ -933,3 +933,10 @@ M("C02-benign-true-divide-mirror-conditional-kind", "C02", "src/interrogate/inte
 M("C02-true-divide-mirror-names-swapped", "C02", "src/interrogate/interfaceMakerPythonNative.cxx",
   "          if (key == \"nb_inplace_divide\") {\n            true_key = \"nb_inplace_true_divide\";\n          } else {\n            true_key = \"nb_true_divide\";", "          if (key == \"nb_inplace_divide\") {\n            true_key = \"nb_true_divide\";\n          } else {\n            true_key = \"nb_inplace_true_divide\";",
   expect="R02.5|write_module_class|true-divide-mirror-names")
+
+M("C15-macro-arg-string-loop-ignores-eof", "C15", "src/cppparser/cppPreprocessor.cxx",
+  "        while (c != EOF && c != quote_mark && c != '\\n') {\n          if (c == '\\\\') {\n            arg += c;", "        while (c != quote_mark && c != '\\n') {\n          if (c == '\\\\') {\n            arg += c;",
+  expect="R15.8|CPPPreprocessor::extract_manifest_args")
+M("C15-benign-skip-whitespace-eof-break", "C15", "src/cppparser/cppPreprocessor.cxx",
+  "  while (c != EOF && isspace(c)) {\n    c = get();\n  }\n\n  if (c != '(') {\n    // No paren, so we have only one arg.", "  while (isspace(c)) {\n    c = get();\n    if (c == EOF) {\n      break;\n    }\n  }\n\n  if (c != '(') {\n    // No paren, so we have only one arg.",
+  benign=True)
